@@ -492,10 +492,19 @@ LEVEL_NOTE = ("Trusted: Lean kernel + propext/Classical.choice/Quot.sound; the h
               "narrower or unsigned representations are outside the theorems and the exploration. Floating-point "
               "representations have no theorem (coverage.unproved_observed). A time_point is modelled as its time_since_epoch(); the "
               "free functions of [time.duration.nonmember] / [time.point.nonmember] were added to tetl by two fix commits (fixed "
-              "findings); if one of them is not declared the harness prints `missing`, which is a violation.")
+              "findings); if one of them is not declared the harness prints `missing`, which is a violation. "
+              "DEVIATION from the property text ('every tick count whose exact result is representable'): the theorems cover "
+              "the tick counts for which every INTERMEDIATE of the code is representable (c*CF::num in intmax_t; for floor/ceil "
+              "also the operands of the comparison and cast +/- 1; for round the eleven conjuncts of RoundIn) - that is the "
+              "UB-free domain of the code as written (and of libstdc++); an input whose exact result is representable only "
+              "through 128-bit intermediates, e.g. duration_cast<duration<i64, ratio<1,3>>>(duration<i64, ratio<5,7>>{2^62}), "
+              "is outside every theorem and outside the generator (which evaluates the same predicates).")
 # members modelled and compared on every run but without a Lean theorem yet
 CORRESPONDENCE_ONLY = ["named duration aliases (periods of nanoseconds … years)",
                        "duration::zero/min/max, time_point::min/max",
+                       "time_point is not an object of the model: operator+=/-=/++/--, the comparisons, time_point_cast and "
+                       "floor/ceil/round(time_point) forward to the duration functions and are covered through the duration "
+                       "theorems; the forwarding itself is tied by the harness (R1/R3) only",
                        "all operations on floating-point representations"]
 THEOREMS = {
     "cast": ["C12.Props.durationCast_eq"], "tp_cast": ["C12.Props.durationCast_eq"],
